@@ -41,6 +41,21 @@ def generate(rng, tier):
                 yield {"shape": shape, "fam": rng.choice(["probe", "fits_cel"]), "wseed": rng.randrange(10**6),
                        "ecs": [{"kind": "wcs", "mapping": mapping, "efam": "fits_cel"}],
                        "steps": [{"items": it1}, {"items": it2}]}
+    # systematic: a multi-table Quantity coordinate (tables in different, equivalent units) whose axes are ALL indexed
+    # away by one item (the coordinate is dropped as a whole), in one step or with a range step before it
+    for nd, kind, axes_list in ((2, "quantity2", [[0, 1], [1, 0]]), (3, "quantity2", [[0, 2], [2, 1], [1, 0]]),
+                                (4, "quantity3", [[0, 1, 3], [3, 0, 2]]), (3, "quantity3", [[2, 0, 1]])):
+        for axes in axes_list:
+            for pre in (False, True):
+                shape = [3 + (a % 3) for a in range(nd)]
+                item = [C.sl(1, None) if pre and nd > len(axes) else C.sl()] * nd
+                for j, a in enumerate(axes):
+                    item[a] = [1, -1, 0][j % 3]
+                if all(isinstance(i, int) for i in item):
+                    continue                      # (a scalar result is not a cube)
+                steps = ([{"items": [C.sl(1, None)] * nd}] if pre else []) + [{"items": item}]
+                yield {"shape": shape, "fam": "probe", "wseed": rng.randrange(10**6),
+                       "ecs": [{"kind": kind, "axes": axes}] + ([{"kind": "time", "axes": [axes[0]]}] if pre else []), "steps": steps}
     for k in range(n):
         nd = rng.choice([1, 2, 2, 3, 3, 4])
         shape = [rng.randint(2, 5) for _ in range(nd)]
